@@ -71,6 +71,8 @@ def gen_cases(chk, tier):
         for f in sorted(os.listdir(cdir)):
             c = json.load(open(os.path.join(cdir, f)))
             cases.append({'a': c['a'], 'b': c['b'], 'src': 'corpus'})
+    for a, b in gennb.crafted_mime_pairs():
+        cases.append({'a': a, 'b': b, 'src': 'crafted-mime'})
     n_rich, n_small = (140, 160) if tier == 'quick' else (2500, 3500)
     for i in range(n_rich):
         a, b = gennb.gen_pair(r)
